@@ -7,3 +7,5 @@ for pid in "$@"; do
   echo "== $pid rc=$rc: $(echo "$out" | grep -E 'VIOLATION|KNOWN' | head -3)"
 done
 git -C /repo checkout -- .
+# the finite tables were regenerated from the patched tree: bring them back to the clean tree
+cd /verif && /venv/bin/python -c "import sys; sys.path.insert(0, 'harness'); import tables; tables.write_tables()" >/dev/null
